@@ -222,6 +222,34 @@ func (m *M) check(b, route string, a Args, pre *snapshot, r *world.Result) {
 		}
 	}
 
+	// ---------------- C06: a password change revokes the old credentials -------------------
+	for pid, u0 := range pre.users {
+		u1 := m.W.Store.Users[pid]
+		if u1 == nil || u1.Password == u0.Password {
+			continue
+		}
+		// pid's password changed in this request
+		if cfg.Has("remember") && len(m.W.Store.Tokens[pid]) != 0 && r.Panic == "" && !r.Injected {
+			m.violate("C06", "tokens-kept", fmt.Sprintf("the password of %q was changed but its remember tokens still work", pid), b)
+		}
+		if u1.RecoverSelector != "" || u1.RecoverVerifier != "" {
+			m.violate("C06", "token-not-spent", fmt.Sprintf("the password of %q was changed but the recovery token is still outstanding", pid), b)
+		}
+		if a.PW != "" && bcrypt.CompareHashAndPassword([]byte(u1.Password), []byte(a.PW)) != nil {
+			m.violate("C06", "hash-mismatch", "the stored hash does not verify the new password", b)
+		}
+		for other, toks := range pre.tokens {
+			if other != pid && other != cookiePIDOf(pre) && len(m.W.Store.Tokens[other]) != len(toks) {
+				m.violate("C06", "other-account", fmt.Sprintf("changing the password of %q changed the remember tokens of %q", pid, other), b)
+			}
+		}
+		for other, o0 := range pre.users {
+			if o1 := m.W.Store.Users[other]; other != pid && o1 != nil && o1.Password != o0.Password {
+				m.violate("C06", "other-account", fmt.Sprintf("changing the password of %q changed the password of %q", pid, other), b)
+			}
+		}
+	}
+
 	// ---------------- C07: remember cookie -------------------------------------------------
 	rememberOn := cfg.RememberMW && cfg.Has("remember")
 	issued := 0
@@ -359,4 +387,11 @@ func (m *M) issued(key string) int {
 		return n
 	}
 	return 1
+}
+
+func cookiePIDOf(pre *snapshot) string {
+	if raw, err := base64.URLEncoding.DecodeString(pre.cook["rm"]); err == nil && len(raw) >= 33 {
+		return string(raw[:len(raw)-33])
+	}
+	return ""
 }
